@@ -632,11 +632,21 @@ fn complete_root(n: usize) -> usize {
 /// Note: `complete binary tree` here refers to a tree in which all left subtrees
 ///       are perfect, which is a stronger assumption than just "complete".
 fn complete_parent(i: usize, n: usize) -> usize {
+    checked_complete_parent(i, n).expect("node must have a parent inside the tree")
+}
+
+/// Returns the parent index of a node at index `i` in a complete binary tree of size `n`, or
+/// `None` if `i` has no parent inside the tree (i.e. `i` is the root or lies outside the tree).
+fn checked_complete_parent(i: usize, n: usize) -> Option<usize> {
     let mut i = i;
     loop {
+        // `perfect_parent` is undefined for the largest index (it has no zero bit left to set).
+        if i == usize::MAX {
+            break None;
+        }
         i = perfect_parent(i);
         if i < n {
-            break i;
+            break Some(i);
         }
     }
 }
